@@ -158,6 +158,8 @@ class MerkleCache(object):
         self.level = []
         self.depth_higher = 0
         self.initialized = Event()
+        # Incremented by truncate() so that operations awaiting the source can tell
+        self.truncations = 0
 
     def _segment_length(self):
         return 1 << self.depth_higher
@@ -174,14 +176,19 @@ class MerkleCache(object):
 
     async def _extend_to(self, length):
         '''Extend the length of the cache if necessary.'''
-        if length <= self.length:
-            return
-        # Start from the beginning of any final partial segment.
-        # Retain the value of depth_higher; in practice this is fine
-        start = self._leaf_start(self.length)
-        hashes = await self.source_func(start, length - start)
-        self.level[start >> self.depth_higher:] = self._level(hashes)
-        self.length = length
+        while length > self.length:
+            truncations = self.truncations
+            prior_length = self.length
+            # Start from the beginning of any final partial segment.
+            # Retain the value of depth_higher; in practice this is fine
+            start = self._leaf_start(self.length)
+            hashes = await self.source_func(start, length - start)
+            if truncations != self.truncations or prior_length != self.length:
+                # Truncated or extended by someone else whilst reading; what was read
+                # may be stale or no longer start where the level ends
+                continue
+            self.level[start >> self.depth_higher:] = self._level(hashes)
+            self.length = length
 
     async def _level_for(self, length):
         '''Return a (level_length, final_hash) pair for a truncation
@@ -209,6 +216,7 @@ class MerkleCache(object):
             raise TypeError('length must be an integer')
         if length <= 0:
             raise ValueError('length must be positive')
+        self.truncations += 1
         if length >= self.length:
             return
         length = self._leaf_start(length)
@@ -230,12 +238,20 @@ class MerkleCache(object):
         if index >= length:
             raise ValueError('index must be less than length')
         await self.initialized.wait()
-        await self._extend_to(length)
-        leaf_start = self._leaf_start(index)
-        count = min(self._segment_length(), length - leaf_start)
-        leaf_hashes = await self.source_func(leaf_start, count)
-        if length < self._segment_length():
+        while True:
+            truncations = self.truncations
+            await self._extend_to(length)
+            leaf_start = self._leaf_start(index)
+            count = min(self._segment_length(), length - leaf_start)
+            leaf_hashes = await self.source_func(leaf_start, count)
+            if length < self._segment_length():
+                level = None
+            else:
+                level = await self._level_for(length)
+            # Start again if truncated whilst reading from the source
+            if truncations == self.truncations:
+                break
+        if level is None:
             return self.merkle.branch_and_root(leaf_hashes, index, tsc_format=tsc_format)
-        level = await self._level_for(length)
         return self.merkle.branch_and_root_from_level(
             level, leaf_hashes, index, self.depth_higher, tsc_format=tsc_format)
